@@ -98,6 +98,37 @@ fn content_distance(seed: u64, shift: f32, inf: (u8, bool, f32), a: &BTreeSet<u3
     (((h >> 40) as f32 + 1.0) / 16_777_216.0 - shift) * inf.2
 }
 
+/// Drains a double-ended iterator with `next` / `next_back` in the order given by the bits of `pattern`
+/// and returns the elements in front-to-back order.
+fn walk_both_ends<T, I: DoubleEndedIterator<Item = T> + ExactSizeIterator>(mut it: I, pattern: u64) -> Result<Vec<T>, String> {
+    let total = it.len();
+    let (mut front, mut back) = (Vec::new(), Vec::new());
+    let mut k = 0u32;
+    loop {
+        let taken = front.len() + back.len();
+        if taken > total {
+            return Err(format!("yields more than the {total} elements len() announced"));
+        }
+        if it.len() != total - taken {
+            return Err(format!("len() = {} with {} of {total} elements left", it.len(), total - taken));
+        }
+        let from_back = (pattern >> (k % 64)) & 1 == 1;
+        k += 1;
+        match if from_back { it.next_back() } else { it.next() } {
+            Some(v) if from_back => back.push(v),
+            Some(v) => front.push(v),
+            None if taken == total => break,
+            None => return Err(format!("ends after {taken} of {total} elements")),
+        }
+    }
+    if it.next().is_some() || it.next_back().is_some() {
+        return Err("yields elements after it ended".into());
+    }
+    back.reverse();
+    front.extend(back);
+    Ok(front)
+}
+
 pub fn check(c: &Case, stats: &mut Stats) -> CheckResult {
     let n = c.sets.len();
     ensure!(n >= 2 && c.method < 4 && c.table.len() == n * n, "harness/bad-case", "malformed case");
@@ -204,11 +235,29 @@ pub fn check(c: &Case, stats: &mut Stats) -> CheckResult {
             let b: Vec<(usize, usize, f32, usize)> = l.iter().map(|c| (c.lhs(), c.rhs(), c.distance(), c.len())).collect();
             let b2: Vec<(usize, usize, f32, usize)> = (&l).into_iter().map(|c| (c.lhs(), c.rhs(), c.distance(), c.len())).collect();
             let idx = l.indicies();
-            let d: Vec<(usize, usize, f32, usize)> = l.into_cluster().map(|c| (c.lhs(), c.rhs(), c.distance(), c.len())).collect();
-            (a, b, b2, idx, d)
+            // the dendrogram read from the back and from both ends at once (next / next_back in a generated
+            // order), through the borrowing and the consuming iterator
+            let tup = |c: &hpo::stats::cluster::Cluster| (c.lhs(), c.rhs(), c.distance(), c.len());
+            let mut ends: Vec<(&'static str, Result<Vec<(usize, usize, f32, usize)>, String>)> = vec![
+                ("cluster().rev()", Ok(l.cluster().rev().map(tup).collect::<Vec<_>>().into_iter().rev().collect())),
+                ("cluster() from both ends", walk_both_ends(l.cluster(), c.seed).map(|v| v.into_iter().map(tup).collect())),
+                ("iter() from both ends", walk_both_ends(l.iter(), !c.seed).map(|v| v.into_iter().map(tup).collect())),
+            ];
+            let d: Vec<(usize, usize, f32, usize)> = match c.seed % 3 {
+                0 => l.into_cluster().map(|c| tup(&c)).collect(),
+                1 => {
+                    ends.push(("into_cluster().rev()", Ok(l.into_cluster().rev().map(|c| tup(&c)).collect::<Vec<_>>().into_iter().rev().collect())));
+                    a.clone()
+                }
+                _ => {
+                    ends.push(("into_cluster() from both ends", walk_both_ends(l.into_cluster(), c.seed.rotate_left(17)).map(|v| v.iter().map(tup).collect())));
+                    a.clone()
+                }
+            };
+            (a, b, b2, idx, d, ends)
         })
     });
-    let (clusters, via_iter, via_ref, indicies, via_into) = match res {
+    let (clusters, via_iter, via_ref, indicies, via_into, ends) = match res {
         Ok(v) => v,
         Err(p) => return fail(format!("{mname}/panic"), format!("Linkage::{mname} on {n} sets panicked: {p}")),
     };
@@ -217,6 +266,12 @@ pub fn check(c: &Case, stats: &mut Stats) -> CheckResult {
     }
     let same = |x: &Vec<(usize, usize, f32, usize)>| x.len() == clusters.len() && x.iter().zip(&clusters).all(|(a, b)| a.0 == b.0 && a.1 == b.1 && a.2.to_bits() == b.2.to_bits() && a.3 == b.3);
     ensure!(same(&via_iter) && same(&via_ref) && same(&via_into), format!("{mname}/iterators-disagree"), "cluster() / iter() / &linkage / into_cluster() yield different sequences");
+    for (how, got) in &ends {
+        match got {
+            Err(e) => return fail(format!("{mname}/iterators-disagree/from-the-back"), format!("{how}: {e}")),
+            Ok(v) => ensure!(same(v), format!("{mname}/iterators-disagree/from-the-back"), "{how} yields {v:?}, read from the front the merges are {clusters:?}"),
+        }
+    }
     // ---- structure
     ensure!(clusters.len() == n - 1, format!("{mname}/merge-count"), "{} merges for {n} inputs", clusters.len());
     let mut live: BTreeSet<usize> = (0..n).collect();
@@ -454,7 +509,7 @@ impl Property for C17 {
         "C17"
     }
     fn rule(&self) -> String {
-        "Generated: n in 2..=24 (thorough 40) input sets with pairwise different contents, in one case of four overlapping (mostly singletons, some with 2-3 terms, in one case of ten one input is the empty set) over a flat 96-term ontology, handed over as a Vec or as iterators without an exact size hint (filter, chain, map_while); for single/complete/average a generated symmetric table of initial distances (distinct values, or few values so that ties are frequent; shifted so that distances are all positive, mixed-sign, all negative or touch zero; in one case of five some pairs - for n <= 6 sometimes all - are infinitely far apart, +inf or -inf but never both; in one case of three all distances are scaled by 10^e, e in -30..=30, so that they lie far below f32::EPSILON or far above 1); for union a symmetric pseudo-random distance that is a function of the two sets' contents, so merged sets get fresh values. Oracle = validity predicate simulated along the library's own merge choices (ties admit several dendrograms): exactly n-1 merges; each merge joins two live, different clusters (inputs or earlier merges n+k), so every input and intermediate cluster is merged exactly once and one cluster remains; the reported distance equals the pair's current distance bit for bit and no live pair is strictly closer; distances to the new cluster follow the method (min / max / mean of the two parts in f32 / content function of the union); len adds up and is n at the last merge; indicies() is a permutation of 0..n; cluster(), iter(), &linkage and into_cluster() agree; the first callback invocation asks every unordered pair of inputs exactly once (later invocations, which also pair the new set with itself, are not constrained). evaluations = clusterings. Non-trivial = n >= 4 and some merge joins two earlier clusters; distinct by hash of the case.".into()
+        "Generated: n in 2..=24 (thorough 40) input sets with pairwise different contents, in one case of four overlapping (mostly singletons, some with 2-3 terms, in one case of ten one input is the empty set) over a flat 96-term ontology, handed over as a Vec or as iterators without an exact size hint (filter, chain, map_while); for single/complete/average a generated symmetric table of initial distances (distinct values, or few values so that ties are frequent; shifted so that distances are all positive, mixed-sign, all negative or touch zero; in one case of five some pairs - for n <= 6 sometimes all - are infinitely far apart, +inf or -inf but never both; in one case of three all distances are scaled by 10^e, e in -30..=30, so that they lie far below f32::EPSILON or far above 1); for union a symmetric pseudo-random distance that is a function of the two sets' contents, so merged sets get fresh values. Oracle = validity predicate simulated along the library's own merge choices (ties admit several dendrograms): exactly n-1 merges; each merge joins two live, different clusters (inputs or earlier merges n+k), so every input and intermediate cluster is merged exactly once and one cluster remains; the reported distance equals the pair's current distance bit for bit and no live pair is strictly closer; distances to the new cluster follow the method (min / max / mean of the two parts in f32 / content function of the union); len adds up and is n at the last merge; indicies() is a permutation of 0..n; cluster(), iter(), &linkage and into_cluster() agree, also when read from the back (rev) or from both ends in a generated order of next / next_back calls, with len() equal to the number of merges left at every step; the first callback invocation asks every unordered pair of inputs exactly once (later invocations, which also pair the new set with itself, are not constrained). evaluations = clusterings. Non-trivial = n >= 4 and some merge joins two earlier clusters; distinct by hash of the case.".into()
     }
     fn assumptions(&self) -> Vec<String> {
         vec![
